@@ -58,6 +58,9 @@ type c19block struct {
 	InState  []string // operations recorded in the block's states
 	mapHash  string
 	proofKey string
+	// the block writer is given the suffrage and policy states a second time, with other values, at the same height (the
+	// first ones stay the block's states: the writer keeps the first state of a key and height)
+	DupStates bool
 }
 
 type c19db struct {
@@ -163,6 +166,25 @@ func (d *c19db) write(b *c19block) error {
 		d.polID[fmt.Sprint(pol.MaxOperationsInProposal())] = b.Policy
 		d.valueID[pst.Hash().String()] = "pol" + b.Policy
 	}
+	var dups []base.State
+	if b.DupStates {
+		if sufst != nil {
+			sv := isaac.NewSuffrageNodesStateValue(base.Height(int64(b.SufH)), []base.SuffrageNodeStateValue{isaac.NewSuffrageNodeStateValue(d.env.node, height+1)})
+			st2 := base.NewBaseState(height, isaac.SuffrageStateKey, sv, valuehash.RandomSHA256(), []util.Hash{valuehash.RandomSHA256()})
+			d.proofID[st2.Hash().String()] = "dup-" + b.ProofID
+			d.valueID[st2.Hash().String()] = "dup-suf" + b.ProofID
+			dups = append(dups, st2)
+		}
+		if b.Policy != "" {
+			pol := isaac.DefaultNetworkPolicy()
+			pol.SetMaxOperationsInProposal(uint64(100 + d.counter))
+			d.counter++
+			st2 := base.NewBaseState(height, isaac.NetworkPolicyStateKey, isaac.NewNetworkPolicyStateValue(pol), valuehash.RandomSHA256(), []util.Hash{valuehash.RandomSHA256()})
+			d.polID[fmt.Sprint(pol.MaxOperationsInProposal())] = "dup-" + b.Policy
+			d.valueID[st2.Hash().String()] = "dup-pol" + b.Policy
+			dups = append(dups, st2)
+		}
+	}
 	var sufhash util.Hash = valuehash.RandomSHA256()
 	manifest := isaac.NewManifest(height, valuehash.RandomSHA256(), valuehash.RandomSHA256(), valuehash.RandomSHA256(), valuehash.RandomSHA256(), sufhash, time.Now())
 	m := isaacblock.NewBlockMap()
@@ -207,6 +229,11 @@ func (d *c19db) write(b *c19block) error {
 		}
 		if err := w.SetStates(sts); err != nil {
 			return err
+		}
+		if len(dups) > 0 {
+			if err := w.SetStates(dups); err != nil {
+				return err
+			}
 		}
 		if err := w.SetOperations(known); err != nil {
 			return err
